@@ -9,7 +9,7 @@ L5 a request handler whose query was cancelled answers with an error, never with
 L6 after a change, diagnostics are re-spawned for every open document (a change cancels every running diagnostics task).
 Interleavings are NOT explored (no tool of this family here models tokio + salsa schedules)."""
 import os, json
-from mirsym import explore, lsp_replay
+from mirsym import explore, lsp_replay, native
 from . import vfsk, ucserver
 from .runner import Check
 
@@ -30,6 +30,13 @@ def burst_replay(binary, rounds=40):
             h = s.request('textDocument/hover', {'textDocument': {'uri': uri}, 'position': {'line': 0, 'character': 8}})
             if 'timeout' in h or 'dead' in h:
                 return 'round %d: hover %s' % (r, 'never answered (main loop blocked)' if 'timeout' in h else 'server died')
+            if r % 4 == 0:
+                # a request and the edit that follows it arriving in one read: the edit is handled before the main loop yields to its runtime
+                ver = 100000 + r
+                h = s.request_with_trailing('textDocument/hover', {'textDocument': {'uri': uri}, 'position': {'line': 0, 'character': 8}},
+                                            [('textDocument/didChange', {'textDocument': {'uri': uri, 'version': ver}, 'contentChanges': [{'text': 'pub fn main() {\n  let x = %d\n  x\n}\n' % ver}]})])
+                if 'timeout' in h or 'dead' in h:
+                    return 'round %d: a hover delivered in one write with the didChange that follows it is %s' % (r, 'never answered (main loop blocked)' if 'timeout' in h else 'followed by the death of the server')
         return None
     finally:
         s.close()
@@ -91,18 +98,63 @@ def main(tier, seed):
                     chk.violation('lock-discipline:' + fn, 'obligation', desc, v['cex'], confirmed=True)
                 else:
                     chk.inconclusive.append('obligation violated but the stall did not reproduce natively (timing dependent): ' + desc[:400])
+        # native convergence layer: z3-enumerated message scenarios against the real binary (timing is real, not modelled)
+        import threading, json
+        from concurrent.futures import ThreadPoolExecutor
+        from . import convk
+        binary = lsp_replay.build_binary()
+        orc = native.Oracle(native.build('oracle-ide')); lock = threading.Lock(); cache = {}
+
+        def diag(txt):
+            with lock:
+                if txt not in cache:
+                    r = orc.ask('diag', json.dumps({'text': txt}))
+                    cache[txt] = len(r) if isinstance(r, list) else None
+                return cache[txt]
+        plan = [(2, None), (3, 96)] if tier == 'quick' else [(2, None), (3, None), (4, None)]
+        nsc = nbad = 0
+        try:
+            for n, limit in plan:
+                scs, nq = convk.all_scenarios(n, limit=limit, seed=seed + 1 if limit else 0)
+                with ThreadPoolExecutor(max_workers=min(jobs, 16)) as ex:
+                    for sc, prob in zip(scs, ex.map(lambda x: convk.run_scenario(binary, diag, x), scs)):
+                        nsc += 1
+                        if prob:
+                            nbad += 1
+                            if nbad <= 3:
+                                chk.violation('convergence:scenario', 'enumerated', 'real binary: ' + prob[:700], {'kind': 'scenario', 'steps': [list(x) for x in sc]}, confirmed=True)
+                        else:
+                            chk.validated += 1
+                chk.log('convergence: %d scenarios of %d steps against the real binary (%s), %d with a wrong final state so far' % (len(scs), n, 'all well-formed ones' if limit is None else 'z3 models, seeded', nbad))
+        finally:
+            orc.close()
+        chk.extra['convergence'] = {'scenarios': nsc, 'with_wrong_final_state': nbad}
     finally:
         vfsk.W.cleanup()
-    chk.assumptions += ['obligation check: necessary conditions of the property (the documented two-lock discipline), not the schedule-quantified statement',
+    chk.assumptions += ['native convergence layer (executed with real timing, not a solver verdict): every well-formed scenario of 2 (quick; thorough: 2-4) steps and 96 z3-chosen scenarios of 3 steps over {edit A into a text with / without a syntax error, edit B, close A, re-open A} x {no gap, 25 ms gap} with two open documents against the real `glas --stdio` binary; '
+                        'after a quiet period the last publishDiagnostics of every open document must carry as many diagnostics as a fresh analysis of its final text, and a hover must be answered; a mismatch is re-judged after a much longer wait, so a slow machine is not reported',
+                        'obligation check: necessary conditions of the property (the documented two-lock discipline), not the schedule-quantified statement',
                         'under-constrained execution: every callee outside the eight handler functions returns an unconstrained value; panics that exist only because such a value was None/Err are ignored here',
                         'loops over collections returned by havoc\'d callees are executed zero times; on_did_change gets an explicit vector of 1-2 (thorough: 3) content changes']
     chk.trusted += ['rustc MIR incl. its elaborated drops (guard lifetimes)', 'mirsym interpreter (under-constrained mode)', 'z3']
     expl = ('Under-constrained symbolic execution of the real MIR of %d server handlers; %d paths; on every path the RwLock<Vfs> guards are tracked from acquisition to the MIR drop and the obligations '
             'L1-L4 are asserted. Necessary conditions only: interleavings and convergence of published diagnostics are not explored.' % (len(HANDLERS), sum(r['paths'] for r in chk.runs)))
-    return chk.finish({'obligations': 4 * len(HANDLERS), 'discharged': (4 * len(HANDLERS)) if not found else 0}, explanation=expl)
+    return chk.finish({'obligations': 4 * len(HANDLERS), 'discharged': (4 * len(HANDLERS)) if not found else 0, 'native_oracle': chk.extra.get('convergence', {})}, explanation=expl)
 
 
 def replay(path):
+    import json
     binary = lsp_replay.build_binary()
+    d = json.load(open(path))
+    if d.get('cex', {}).get('kind') == 'scenario':
+        from . import convk
+        orc = native.Oracle(native.build('oracle-ide'))
+        def diag(txt):
+            r = orc.ask('diag', json.dumps({'text': txt}))
+            return len(r) if isinstance(r, list) else None
+        probs = [convk.run_scenario(binary, diag, [tuple(x) for x in d['cex']['steps']]) for _ in range(5)]
+        orc.close()
+        print(json.dumps({'runs': 5, 'problems': [p for p in probs if p][:3]}, indent=1))
+        return 1 if any(probs) else 0
     print(burst_replay(binary, 100))
     return 0
